@@ -325,6 +325,10 @@ def gen_history(draw, tier="quick"):
             op["val"] = draw(st.floats(0.1, 1.5))
         elif k in ("mutate_pos", "shift_pos", "set_pos"):
             op["shift"] = draw(st.lists(st.floats(0.05, 1.0), min_size=dim, max_size=dim))
+            if dim > 1 and draw(st.booleans()):
+                # the points move along one coordinate axis only (the other coordinate arrays stay as they are)
+                keep_ax = draw(st.integers(0, dim - 1))
+                op["shift"] = [v if i == keep_ax else 0.0 for i, v in enumerate(op["shift"])]
         ops.append(op)
     ops.append({"op": "gen_nan", "with_pos": False})
     case["ops"] = ops
